@@ -78,8 +78,8 @@ def resp_collect(ctx, n, with_dump, kernel_n=6):
         run = L.run_response(py4hw, cfg, rng, want_dump=with_dump and i < kernel_n)
         run['idx'] = i
         bad = L.judge_response(run)
-        ctx.count(('resp', cfg['wvin'], tuple((v, k) for v, k in cfg['requests']), cfg['pace']), n=len(run['ins']))
-        if i < 2: ctx.sample({'encoder_requests': cfg['requests'], 'pace': cfg['pace'], 'cycles': len(run['ins']),
+        ctx.count(('resp', cfg['wvin'], tuple((v, k) for v, k in cfg['requests']), tuple(cfg['pattern'])), n=len(run['ins']))
+        if i < 2: ctx.sample({'encoder_requests': cfg['requests'], 'consumer_pacing': cfg['pattern'], 'cycles': len(run['ins']),
                               'transferred': ''.join(chr(c) for c in run['xfers'])})
         if bad:
             return ('spec', L.resp_replay(run, bad))
@@ -132,7 +132,7 @@ def structured_search(ctx, budget_cases):
         if bad: return ('spec', L.req_replay(run, bad))
     for cfg in L.structured_resp_cases(random.Random(ctx.seed + 6), budget_cases):
         run = L.run_response(py4hw, cfg, random.Random(ctx.seed + 7 + n), want_dump=False); run['idx'] = -1
-        n += 1; ctx.count(('resp-s', cfg['wvin'], tuple(cfg['requests']), cfg['pace']), n=len(run['ins']))
+        n += 1; ctx.count(('resp-s', cfg['wvin'], tuple(cfg['requests']), tuple(cfg['pattern'])), n=len(run['ins']))
         bad = L.judge_response(run)
         if bad: return ('spec', L.resp_replay(run, bad))
     ctx.notes['structured_search_cases'] = n
@@ -187,7 +187,12 @@ def run(ctx):
     tie = None
     if have_model:
         try:
-            tie = step_tie(ctx, 260 if q else 2500, 160 if q else 1500)
+            try:
+                tie = step_tie(ctx, 260 if q else 2500, 160 if q else 1500)
+            except RuntimeError:
+                raise
+            except Exception as ex:       # clock() of the real block raised on a single-step case
+                tie = {'what': 'clock() raised %s: %s on a single-step case' % (type(ex).__name__, ex)}
             ctx.log('step tie: %s' % ('ok' if tie is None else tie['what']))
         except RuntimeError as ex:
             have_model = False
